@@ -320,3 +320,50 @@ def m6(ctx):
                 ctx.instance('%s calls %s' % (key, name))
                 if key not in ('internal::acquire_internal', 'internal::try_acquire_internal'):
                     ctx.violate(key, None, 'channel mutex locked outside acquire_internal/try_acquire_internal', at=t.get('at'), sig='lock-outside')
+
+
+BLOCKING_CALLS = {'signal::Signal::wait', 'signal::Signal::wait_timeout', 'signal::Signal::async_blocking_wait',
+                  'std::thread::park', 'std::thread::park_timeout', 'std::thread::sleep', 'backoff::sleep',
+                  'std::thread::yield_now', 'backoff::yield_now_std', 'backoff::yield_now', 'backoff::spin_wait',
+                  'backoff::spin_cond'}
+
+
+@rule('W1', ['C03', 'C06', 'C17', 'C14'], 'lock hygiene in every body: no nested acquisition, no blocking call inside a critical section, every guard released before return')
+def w1(ctx):
+    import sem as _sem
+    for key, b in ctx.facts.bodies.items():
+        names = set(b.callee_names())
+        if not ({'internal::acquire_internal', 'internal::try_acquire_internal'} & names):
+            continue
+        ps = ctx.paths(b)
+        if ps is None:
+            ctx.violate(key, None, 'cannot analyse: path explosion', sig='paths')
+            continue
+        ctx.instance(key)
+        for p in ps:
+            if p.end not in ('return', 'panic'):
+                continue
+            evs = ctx.sem(p)
+            ctx.oblige(1)
+            held = {}
+            for e in evs:
+                if e.name in ('LOCK', 'TRYLOCK'):
+                    if held:
+                        ctx.violate(key, p, 'channel lock acquired while it is already held on this path (self-deadlock on the spin lock)', at=e.at)
+                    held[e.data['sid']] = e
+                elif e.name == 'UNLOCK':
+                    for sid in list(held):
+                        if held[sid].data['guard'] == e.data['guard']:
+                            del held[sid]
+                elif e.name == 'FORGET' and held and any(h.data['guard'] == e.data['val'] for h in held.values()):
+                    ctx.violate(key, p, 'lock guard forgotten: the channel stays locked for ever', at=e.at)
+                elif e.sec is not None and held:
+                    callee = None
+                    if e.name == 'CALL':
+                        callee = e.data['callee']
+                    elif e.name in ('SIG.wait', 'SIG.wait_timeout', 'SIG.async_blocking_wait'):
+                        callee = 'signal::Signal::' + e.name[4:]
+                    if callee in BLOCKING_CALLS:
+                        ctx.violate(key, p, 'blocking call %s while the channel lock is held (every other operation spins until it returns)' % callee, at=e.at)
+            if p.end == 'return' and held:
+                ctx.violate(key, p, 'returns with the channel lock still held (guard moved out or leaked)')
